@@ -11,10 +11,10 @@ pub open spec fn is_scan(rows: Seq<RecId>, m: Map<RecId, RecVal>, b: RecBoundsRe
 #[verifier::external_body]
 pub struct RedbRecRange<'a> { _p: std::marker::PhantomData<&'a u8> }
 
-pub type RangeItem = std::result::Result<(RecKeyGuard, RecValGuard), StorageError>;
+pub type RedbRangeItem = std::result::Result<(RecKeyGuard, RecValGuard), StorageError>;
 
 /// item i of a scan over `rows` of table `m` is row i (or an error)
-pub open spec fn item_is_row(it: RangeItem, m: Map<RecId, RecVal>, id: RecId) -> bool {
+pub open spec fn item_is_row(it: RedbRangeItem, m: Map<RecId, RecVal>, id: RecId) -> bool {
     it is Ok ==> it->Ok_0.0@ == id && it->Ok_0.1@ == m[id]
 }
 
@@ -25,7 +25,7 @@ impl<'a> RedbRecRange<'a> {
     pub uninterp spec fn rows(&self) -> Seq<RecId>;
 
     #[verifier::external_body]
-    pub fn next(&mut self) -> (r: Option<RangeItem>)
+    pub fn next(&mut self) -> (r: Option<RedbRangeItem>)
         ensures
             final(self).table() == old(self).table(),
             old(self).rows().len() == 0 ==> r is None && final(self).rows() == old(self).rows(),
